@@ -119,7 +119,7 @@ def model_burgers():
 
 
 def model_shallowwater():
-    return st.builds(lambda g: dict(name="shallowwater", g=g), st.one_of(st.just(9.81), logf(-1, 2)))
+    return st.builds(lambda g: dict(name="shallowwater", g=g), st.one_of(st.just(9.81), logf(-1, 2), st.sampled_from([981.0, 32.2, 1.0, 0.01])))
 
 
 GAMMAS = st.one_of(st.sampled_from([1.4, 5.0 / 3.0, 1.1, 2.0, 1.2]), f(1.05, 2.0))
